@@ -735,6 +735,7 @@ func c16(x *runCtx) {
 	c16Hostiles(x, c16HostileList(g.r, n))
 	c16EarlyDone(x)
 	c16DevmodDirect(x, g.r)
+	c16CustomDevmod(x)
 	x.r.Note("model: lean/Fdo/Svc/Rounds.lean with Fixes.repaired (devmod messages never split across 68 messages; nummodules and modules chunks bounded)")
 }
 
